@@ -486,6 +486,8 @@ def dwarf_rows(f):
     """CFI row in force at every instruction boundary, derived from what the prologue has done so far.
     Darwin-style CFI (f.darwin_cfi) has no rows for the epilogue: the body row stays in force to the end of the
     function, and a thread stopped inside the epilogue is unwound correctly only through instruction analysis"""
+    if getattr(f, "force_rows", None):
+        return f.force_rows            # (C06: a deferred function whose row does not compress)
     rows = _dwarf_rows(f)
     if getattr(f, "darwin_cfi", False):
         epi = [off for (off, insn, phase) in f.insns if phase == "epilogue"]
